@@ -14,8 +14,8 @@ MANIFEST = {
     'level': 'exploration',
     'technique': 'Hypothesis-generated interleavings of tryAcquire/release/prolongation-loop iterations/clock advances from 2-4 ReplLockManager clients on a simulated cluster (commit delays, breaks, partitions) under one common virtual wall clock; '
                  'mutual-exclusion invariant at every step, reference lock table fold, late-acquire rule, obtainability after expiry',
-    'text': 'pysyncobj.batteries.threading/time are replaced so that the real _autoAcquireThread loop body runs one iteration per harness step and time.time() is a common virtual clock. After every step: for every lock at most one client\'s '
-            'isAcquired() is true; every replica\'s lock table equals an independent fold of the committed acquire/prolongate/release commands at its applied index; a tryAcquire whose callback arrives later than autoUnlockTime/2 '
+    'text': 'pysyncobj.batteries.threading/time are replaced so that the real _autoAcquireThread loop body runs one iteration per harness step and time.time() is a common virtual clock. After every step: for every lock at most one client considers it its own (isAcquired() true, its latest '
+            'tryAcquire answered True and no release() since); every replica\'s lock table equals an independent fold of the committed acquire/prolongate/release commands at its applied index; a tryAcquire whose callback arrives later than autoUnlockTime/2 '
             'after the attempt reports False. Closing phase: in-flight commands drain; a late-failed client does not hold the lock; a lock whose holder stopped prolonging is obtained by another client that tries after the auto-unlock time.',
     'note': 'Client clocks agree by construction (one virtual wall clock, decoupled from the nodes\' monotonic clocks so that commit delays are arbitrary); sync (blocking) variants of tryAcquire are exercised only through the same replicated commands.',
 }
